@@ -129,6 +129,9 @@ def chan_mc(rep, tier, kinds=("q", "rv", "os")):
     for k in kinds:
         cfg = "MC_ChanA_%s%s.cfg" % (k, "_quick" if tier == "quick" else "")
         add_mc(rep, mc_cached("chan", "MC_ChanA", cfg, deps))
+    if "rv" in kinds:
+        # Layer P of the rendezvous hand-off / cancellation protocol (as fixed by 6a381f1)
+        add_mc(rep, mc_cached("chan", "RendezvousP", "RendezvousP_fixed.cfg", [], workers=2))
 
 
 CHAN_ASSUME = [
